@@ -145,7 +145,12 @@ def run(tier):
         base_cfg = {"prefixes": ["p/"], "autoescape": [".h"]}
         h1 = [batch_src(list(pres.items()))] if pres else []
         h2 = second_history(pre, rnd)
-        for mode, hist in (("batch", h1), ("steps", h2)):
+        modes = [("batch", h1), ("steps", h2)]
+        if act["kind"] == "add" and not act["ok"]:
+            # the refused call once more, naming each of its templates TWICE (an innocent, escaping-sensitive first version,
+            # then the real one): still refused, and still nothing of it stays
+            modes.append(("dup", h1))
+        for mode, hist in modes:
             if hist is None:
                 continue
             steps = [{"op": "add", "tpls": b} for b in hist if b]
@@ -155,7 +160,10 @@ def run(tier):
             nobs = len(observe_steps(names))
             if act["kind"] == "add":
                 # the second history applies the call through add_template_files (same contract, other entry point)
-                steps.append(dict({"op": "add", "tpls": batch_src(act["batch"])}, **({"via": "files"} if mode == "steps" else {})))
+                real = batch_src(act["batch"])
+                if mode == "dup":
+                    real = [[n, "D" + n + ";{{ '<' }}"] for n, _ in real] + real
+                steps.append(dict({"op": "add", "tpls": real}, **({"via": "files"} if mode == "steps" else {})))
             else:
                 steps.append({"op": "autoescape", "suffixes": sorted(act["s"])})
             steps += observe_steps(names)
